@@ -353,7 +353,8 @@ class Exec:
             else:
                 raise Unsupported(f"parameter {a!r} has no declared type in contract {c.key}")
             st.env[a] = v
-            self.params[a] = v
+            if a in c.params:
+                self.params[a] = v
         for g, ty in c.ghosts.items():
             self.ghosts[g] = self.fresh_value(ty, "ghost_" + g)
         pre = self.eval_requires(c, self.params)
@@ -1945,7 +1946,10 @@ def type_matches(ty, v):
     if ty.startswith("map:"):
         return isinstance(v, MapV)
     if ty.startswith("tup:") or ty.startswith("list:"):
-        return isinstance(v, TupV)
+        if not isinstance(v, TupV):
+            return False
+        items = split_types(ty.split(":", 1)[1])
+        return len(items) == len(v.items) and all(type_matches(t, x) for t, x in zip(items, v.items))
     if ty.startswith("obj:"):
         return isinstance(v, ObjV)
     if ty == "const":
